@@ -262,8 +262,12 @@ def _memory_watchdog(limit_gb):
 
 
 def _startup_violation(ctx, e):
-    ctx.violation("%s:startup:%s" % (ctx.prop, e.what.split(":", 1)[0]), {"startup_argv": e.argv},
-                  "fake_trx.Application() with the command line %r does not start: %s" % (" ".join(e.argv), e.what))
+    case = {"startup_argv": e.argv}
+    if e.want_ports is not None:
+        case["want_ports"] = e.want_ports
+    ctx.violation("%s:startup:%s" % (ctx.prop, e.what.split(":", 1)[0]), case,
+                  "fake_trx.Application() with the command line %r %s: %s"
+                  % (" ".join(e.argv), "does not start" if e.want_ports is None else "does not come up as documented", e.what))
 
 
 def main():
@@ -294,7 +298,12 @@ def main():
         try:
             if isinstance(rec["case"], dict) and "startup_argv" in rec["case"]:
                 from vlib import world
-                world.make_app(rec["case"]["startup_argv"])
+                _, fab = world.make_app(rec["case"]["startup_argv"])
+                want = rec["case"].get("want_ports")
+                got = sorted(p for _, p in fab.binds)
+                if want is not None and got != want:
+                    raise AppStartFailure(rec["case"]["startup_argv"], "PortPlan: the application bound the UDP ports %r, "
+                                          "the documented plan for this command line is %r" % (got, want), want_ports=want)
             else:
                 mod.replay(ctx, rec["case"])
         except AppStartFailure as e:
